@@ -881,3 +881,117 @@ def r_alphamax_positive(A, ctx, scope, rule="R-ALPHAMAX-POS"):
                         f"strength {rg.num(crit):.4g} = max_j (-g_j)_+ / k_j: at alpha_max the null model "
                         "is not a solution", loc=where)
     ctx.floor(rule, n, scope.get("floor", 20))
+
+
+# ------------------------------------------------------------------- datafits with a prox
+def r_prox_datafit(A, ctx, scope, rule="R-PROX-DATAFIT"):
+    ctx.rule(rule, "datafits used through their prox (primal-dual solver): on every sign region of a "
+             "two-sample problem, u = prox(w, step, y) satisfies u - w + step * d value/d Xw (u) = 0 "
+             "for the datafit's own value() (norms solved as unknowns and checked against their "
+             "radicands; at a kink u_i = y_i the one-sided derivatives bracket 0), and prox_conjugate "
+             "is the Moreau transform of prox")
+    prog = A.prog
+    n = 0
+    W2 = [(0.9, -0.4), (-1.1, 0.2), (0.1, 0.15), (2.0, 1.7), (0.32, -0.05)]
+    for dcls in prog.datafits:
+        px = dcls.find_method("prox")
+        if px is None or px.cls.name.startswith("Base"):
+            continue
+        where = loc(px, px.node)
+        spec = prog.spec_of(dcls) or []
+        for wv in W2:
+            key = f"{dcls.fq}::prox::w={wv}"
+            try:
+                vals = {"w0": wv[0], "w1": wv[1], "y0": 0.3, "y1": -0.2, "step": 0.35, "v0": 0.0, "v1": 0.0,
+                        "quantile_level": 0.3}
+                rg = Region(vals)
+                L = RegionLifter(prog, rg)
+                dobj = Obj(dcls, {nm: sym(nm) for nm, t in spec if "[" not in t and "bool" not in t})
+                y = Vec([sym("y0"), sym("y1")])
+                w = Vec([sym("w0"), sym("w1")])
+                u = [R(x) for x in L.call_function(px, [w, sym("step"), y], self_obj=dobj)]
+                un = [rg.num(x) for x in u]
+                # value around the output
+                rg2 = Region(dict(vals, v0=un[0], v1=un[1]))
+                L2 = RegionLifter(prog, rg2)
+                at_kink = [abs(un[i] - vals[f"y{i}"]) < 1e-12 for i in range(2)]
+                vsym = [sym(f"v{i}") if not at_kink[i] else sym(f"y{i}") for i in range(2)]
+                val = R(L2.call_function(dcls.find_method("value"), [y, None, Vec(vsym)], self_obj=dobj))
+                sub = {("sym", f"v{i}"): u[i] for i in range(2) if not at_kink[i]}
+                eqs = {}
+                rel = {}
+                for i in range(2):
+                    if at_kink[i]:
+                        continue
+                    d = derivative(val, ("sym", f"v{i}"))
+                    top, nested = _sqrt_atoms_on(d, {"v0", "v1"})
+                    if nested:
+                        raise Unsupported("nested radicals")
+                    m = {}
+                    for k, a in enumerate(sorted(top, key=repr)):
+                        m[a] = sym(f"rho{k}")
+                        rel[f"rho{k}"] = substitute(KEY2RF[a[2]], sub)
+                    eqs[i] = u[i] - w[i] + sym("step") * substitute(substitute(d, m), sub)
+                sol = {}
+                for name, rad in rel.items():
+                    a = ("sym", name)
+                    for i, e in eqs.items():
+                        parts_ = _degree_split(e.num, a)
+                        if set(parts_) - {0, 1}:
+                            raise Unsupported("equation not linear in the norm")
+                        p, q = parts_.get(1, const(0)), parts_.get(0, const(0))
+                        if p.is_zero():
+                            continue
+                        sol[a] = -q / p
+                        break
+                    if a in sol:
+                        n += 1
+                        rho_num, rad_num = rg.num(sol[a]), rg.num(rad)
+                        ok = (sol[a] * sol[a]).equals(rad) and rho_num > 0
+                        res = (rho_num ** 2 - rad_num) / max(1.0, abs(rad_num)) if rho_num > 0 else 1.0
+                        _residual_verdict(ctx, rule, key + f"::{name}", ok, res,
+                                          f"{dcls.name}.prox({wv}) violates the first-order condition of "
+                                          f"{dcls.name}.value(): the residual norm it requires is not the norm "
+                                          "of the residual at the output", where, [])
+                for i, e in eqs.items():
+                    e2 = substitute(e, sol) if sol else e
+                    n += 1
+                    _residual_verdict(ctx, rule, key + f"::eq{i}", e2.is_zero(), rg.num(e2),
+                                      f"{dcls.name}.prox({wv}) = ({un[0]:.4g}, {un[1]:.4g}) is not stationary for "
+                                      f"0.5 |u - w|^2 + step * {dcls.name}.value(y, ., u) in coordinate {i}",
+                                      where, [])
+                for i in range(2):
+                    if not at_kink[i]:
+                        continue
+                    ds = []
+                    for side in (+1, -1):
+                        rg3 = Region(dict(vals, v0=un[0], v1=un[1]))
+                        rg3.values[f"v{i}"] = un[i] + side * 1e-5
+                        L3 = RegionLifter(prog, rg3)
+                        vs = [sym(f"v{k}") if (k == i or not at_kink[k]) else sym(f"y{k}") for k in range(2)]
+                        v3 = R(L3.call_function(dcls.find_method("value"), [y, None, Vec(vs)], self_obj=dobj))
+                        ds.append(rg3.num(derivative(v3, ("sym", f"v{i}"))))
+                    right = un[i] - wv[i] + vals["step"] * ds[0]
+                    left = un[i] - wv[i] + vals["step"] * ds[1]
+                    n += 1
+                    ctx.ob(rule, key + f"::kink{i}", right >= -1e-9 and left <= 1e-9,
+                           what=f"{dcls.name}.prox({wv}) puts coordinate {i} on the kink u_i = y_i although "
+                                "the one-sided derivatives of the prox objective do not bracket 0", loc=where)
+                # Moreau
+                pc = dcls.find_method("prox_conjugate")
+                if pc is not None and not pc.cls.name.startswith("Base"):
+                    z = Vec([sym("w0"), sym("w1")])
+                    got = L.call_function(pc, [z, sym("step"), y], self_obj=dobj)
+                    inv = const(1) / sym("step")
+                    pz = L.call_function(px, [Vec([z[0] * inv, z[1] * inv]), inv, y], self_obj=dobj)
+                    n += 1
+                    okm = all(R(got[i]).equals(R(z[i]) - sym("step") * R(pz[i])) for i in range(2))
+                    ctx.ob(rule, key + "::moreau", okm,
+                           what=f"{dcls.name}.prox_conjugate is not z - step * prox(z / step, 1 / step, y)",
+                           loc=loc(pc, pc.node))
+            except Raised as e:
+                n += 1
+                ctx.ob(rule, key, False, what=f"{dcls.name}.prox raises at w={wv}: {e}", loc=where)
+            except (Unsupported, ZeroDivisionError) as e:
+                ctx.ob(rule, key, None, detail=f"not lifted: {e}")
+    ctx.floor(rule, n, scope.get("floor", 15))
